@@ -238,6 +238,8 @@ class Impl:
     def op_spec_gfsc(self, f, *a): return self._spec(f)
     def op_spec_gfc(self, f, *a): return self._spec(f)
     def op_spec_gdl1(self, f, *a): return self._spec(f)
+    def op_spec_gd(self, f, *a): return self._spec(f)
+    def op_spec_ppm(self, f, *a): return self._spec(f)
     def op_spec_agfc(self, f, *a): return self._spec(f)
     def op_spec_gdl2(self, f, *a): return self._spec(f)
     def op_spec_gdc(self, f, *a): return self._spec(f)
@@ -958,6 +960,8 @@ def example_program(c):
     if c["func"] == "wc_gradient_descent_contraction": spec = ["spec.gdc f0 %s %d" % (fr(c["args"]["gamma"]), c["args"]["n"])]
     if c["func"] == "wc_proximal_gradient": spec = ["spec.pg f0 f1 f2 %s %d" % (fr(c["args"]["gamma"]), c["args"]["n"])]
     if c["func"] == "wc_gradient_flow_strongly_convex": spec = ["spec.gfsc f0"]
+    if c["func"] == "wc_gradient_descent" and c["module"].endswith("unconstrained_convex_minimization.gradient_descent"): spec = ["spec.gd f0 %s %d" % (fr(c["args"]["gamma"]), c["args"]["n"])]
+    if c["func"] == "wc_proximal_point" and c["module"].endswith("unconstrained_convex_minimization.proximal_point"): spec = ["spec.ppm f0 %s %d" % (fr(c["args"]["gamma"]), c["args"]["n"])]
     if c["func"] == "wc_accelerated_gradient_flow_convex": spec = ["spec.agfc f0 %s" % fr(c["args"]["t"])]
     if c["func"] == "wc_gradient_descent_lyapunov_2": spec = ["spec.gdl2 f0 %s %s %d" % (fr(c["args"]["L"]), fr(c["args"]["gamma"]), c["args"]["n"])]
     if c["func"] == "wc_gradient_flow_convex": spec = ["spec.gfc f0 %s" % fr(c["args"]["t"])]
@@ -980,6 +984,13 @@ def gen_methods(seed):
         L = rnd.choice([1, 2, 0.5, 4, 1.7])
         c = dict(module="PEPit.examples.potential_functions.gradient_descent_lyapunov_1", func="wc_gradient_descent_lyapunov_1",
                  args=dict(L=L, gamma=rnd.choice([1 / L, 1 / L, 0.5 / L, 1]), n=rnd.randint(0, 12)))
+    elif seed % 32 == 5:
+        L = rnd.choice([1, 2, 0.5, 3])
+        c = dict(module="PEPit.examples.unconstrained_convex_minimization.gradient_descent", func="wc_gradient_descent",
+                 args=dict(L=L, gamma=rnd.choice([1 / L, 0.5 / L, 1.5 / L, 0.25]), n=rnd.randint(1, 8)))
+    elif seed % 32 == 9:
+        c = dict(module="PEPit.examples.unconstrained_convex_minimization.proximal_point", func="wc_proximal_point",
+                 args=dict(gamma=rnd.choice([1, 0.5, 3, 1.5, 0.3]), n=rnd.randint(1, 8)))
     elif seed % 32 == 23:
         c = dict(module="PEPit.examples.continuous_time_models.accelerated_gradient_flow_convex", func="wc_accelerated_gradient_flow_convex",
                  args=dict(t=rnd.choice([3.4, 1, 0.5, 10, 2, 7.25])))
